@@ -70,7 +70,7 @@ Definition value_expr (o : oracles) (ic : bool) (ki : keyinfo) (v : yaml) : out 
           else Ok (cmp_expr e BEqual (EInt i))
       | inr x =>
           if misc_is MInt misc then Err EInvalidIdent
-          else if misc_is MStr misc then Ok (ESearch (SExact (f64_show o x)) f true)
+          else if misc_is MStr misc then Ok (ESearch (SExact (big_int_text o z x)) f true)
           else Ok (cmp_expr e BEqual (EFloat x))
       end
   | YFloat x =>
@@ -520,7 +520,7 @@ Proof.
   exact (entry_refines_alt o ic k v e Hv Hd27 Hbig H).
 Qed.
 
-(* ================= the statement of Model/Spec.v is false ================= *)
+(* ================= D30 as repaired ================= *)
 
 Definition cx_o : oracles :=
   {| re_valid := fun _ _ => true; re_match := fun _ _ _ => false; f64_parse := fun _ => None;
@@ -531,28 +531,17 @@ Definition cx_k : str := [115; 116; 114; 40; 102; 41]%N.     (* str(f) *)
 Definition cx_z : Z := 18446744073709551615%Z.                (* u64::MAX *)
 Definition cx_d : doc := fun _ => Some (VUInt cx_z).
 Definition cx_e : expr :=
-  ESearch (SExact [49;56;52;52;54;55;52;52;48;55;51;55;48;57;53;53;50;48;48;48]%N) [102%N] true.
+  ESearch (SExact [49;56;52;52;54;55;52;52;48;55;51;55;48;57;53;53;49;54;49;53]%N) [102%N] true.
 
-(* `str(f): 18446744073709551615` on the document {f: 18446744073709551615}: the crate says
-   false (it compares "18446744073709551615" with the text of the double 2^64), the
-   reference says true *)
-Example entry_refines_refuted_D30 :
+(* `str(f): 18446744073709551615` on the document {f: 18446744073709551615}: since fix D30 the
+   constant keeps its own decimal text (before, the text of the double 2^64 was compared and the
+   engine said false where the reference says true) *)
+Example entry_fixed_D30 :
   scalar_yaml (YInt cx_z) = true /\
-  d27_entry cx_o (YStr cx_k) (YInt cx_z) = false /\
   parse_entry cx_o false (YStr cx_k) (YInt cx_z) None [] = Ok cx_e /\
   read_key cx_o cx_k = Some (KStr, [102%N]) /\
-  solve_body cx_o cx_e (pure_doc cx_d) = Ok F /\
+  solve_body cx_o cx_e (pure_doc cx_d) = Ok T /\
   sem_entry_scalar cx_o false KStr [102%N] (YInt cx_z) cx_d = T.
 Proof. repeat split; vm_compute; reflexivity. Qed.
 
-Lemma entry_refines_false : ~ entry_refines_stmt.
-Proof.
-  intros H.
-  destruct entry_refines_refuted_D30 as [H1 [H2 [H3 [H4 [H5 H6]]]]].
-  destruct (H cx_o false cx_k (YInt cx_z) cx_e H1 H2 H3) as [m [f [Hr [_ Hd]]]].
-  rewrite H4 in Hr. inversion Hr; subst m f.
-  specialize (Hd cx_d). rewrite H5, H6 in Hd. discriminate Hd.
-Qed.
-
 Print Assumptions entry_refines_excl.
-Print Assumptions entry_refines_false.
